@@ -89,92 +89,57 @@ theorem C03_param_usage_span (f : Path) (a : Arg) :
     | _ => False := by
   simp [argUsage]
 
-/-- `contains_yield` (used to unwrap `Generator[T, …]`) finds a yield only where `find_yield_line`
-    (used for the yield line) finds one too. -/
-theorem C03_contains_yield_sub : (body : List Stmt) → containsYield body = true → (yieldLine body).isSome = true
-  | [], h => by simp [containsYield] at h
-  | s :: ss, h => by
-    simp only [containsYield, Bool.or_eq_true] at h
-    simp only [yieldLine]
-    rcases h with h | h
-    · have := stmt_sub s h
-      cases hy : yieldInStmt s with
-      | none => rw [hy] at this; cases this
-      | some l => simp [Option.orElse]
-    · have := C03_contains_yield_sub ss h
-      cases hy : yieldInStmt s with
-      | none => simpa [Option.orElse] using this
-      | some l => simp [Option.orElse]
-where
-  stmt_sub : (s : Stmt) → containsYieldStmt s = true → (yieldInStmt s).isSome = true
-    | .expr (.yield _) _, _ => by simp [yieldInStmt, yieldInExpr]
-    | .expr (.yieldFrom _) _, _ => by simp [yieldInStmt, yieldInExpr]
-    | .if_ _ b o _, h => by
-      simp only [containsYieldStmt, Bool.or_eq_true] at h
-      simp only [yieldInStmt]
-      rcases h with h | h
-      · have := C03_contains_yield_sub b h
-        cases hb : yieldLine b with
-        | none => rw [hb] at this; cases this
-        | some l => simp [Option.orElse]
-      · have := C03_contains_yield_sub o h
-        cases hb : yieldLine b with
-        | none => simpa [Option.orElse] using this
-        | some l => simp [Option.orElse]
-    | .for_ false _ _ b o _, h => by
-      simp only [containsYieldStmt, Bool.or_eq_true] at h
-      simp only [yieldInStmt]
-      rcases h with h | h
-      · have := C03_contains_yield_sub b h
-        cases hb : yieldLine b with
-        | none => rw [hb] at this; cases this
-        | some l => simp [Option.orElse]
-      · have := C03_contains_yield_sub o h
-        cases hb : yieldLine b with
-        | none => simpa [Option.orElse] using this
-        | some l => simp [Option.orElse]
-    | .while_ _ b o _, h => by
-      simp only [containsYieldStmt, Bool.or_eq_true] at h
-      simp only [yieldInStmt]
-      rcases h with h | h
-      · have := C03_contains_yield_sub b h
-        cases hb : yieldLine b with
-        | none => rw [hb] at this; cases this
-        | some l => simp [Option.orElse]
-      · have := C03_contains_yield_sub o h
-        cases hb : yieldLine b with
-        | none => simpa [Option.orElse] using this
-        | some l => simp [Option.orElse]
-    | .with_ false _ _ b _, h => by
-      simp only [containsYieldStmt] at h
-      simp only [yieldInStmt]
-      exact C03_contains_yield_sub b h
-    | .try_ b hs o fb _, h => by
-      simp only [containsYieldStmt, Bool.or_eq_true] at h
-      simp only [yieldInStmt]
-      cases hb : yieldLine b with
-      | some l => simp [Option.orElse]
-      | none =>
-        cases hh : yieldLine hs with
-        | some l => simp [Option.orElse]
-        | none =>
-          cases ho : yieldLine o with
-          | some l => simp [Option.orElse]
-          | none =>
-            rcases h with (h | h) | h
-            · have := C03_contains_yield_sub b h; rw [hb] at this; cases this
-            · have := C03_contains_yield_sub o h; rw [ho] at this; cases this
-            · have := C03_contains_yield_sub fb h
-              simpa [Option.orElse] using this
+theorem isSome_orElse (a b : Option Nat) : (a.orElse (fun _ => b)).isSome = (a.isSome || b.isSome) := by
+  cases a <;> simp [Option.orElse]
 
-/-- **the two yield visitors disagree** (the converse of `C03_contains_yield_sub` fails): a
-    fixture that yields inside `async with` gets a yield line but its `Generator[T, …]` return
-    type is not unwrapped. Witness replayed on the implementation (`corpus/C03/async_with_yield.case`). -/
-theorem C03_visitors_disagree :
-    ∃ body : List Stmt, (yieldLine body).isSome = true ∧ containsYield body = false :=
-  ⟨[.with_ true [] [] [.expr (.yield ⟨3, 8, 3, 15⟩) ⟨3, 8, 3, 15⟩] ⟨2, 4, 3, 15⟩],
-    by simp [yieldLine, yieldInStmt, yieldInExpr, Option.orElse],
-    by simp [containsYield, containsYieldStmt]⟩
+mutual
+  /-- per statement: `contains_yield` and `find_yield_in_stmt` agree -/
+  theorem C03_contains_yield_stmt_iff : (s : Stmt) → containsYieldStmt s = (yieldInStmt s).isSome
+    | .expr e _ => by cases e <;> simp [containsYieldStmt, yieldInStmt, yieldInExpr]
+    | .if_ _ b o _ => by
+      simp only [containsYieldStmt, yieldInStmt, isSome_orElse]
+      rw [C03_contains_yield_iff b, C03_contains_yield_iff o]
+    | .for_ _ _ _ b o _ => by
+      simp only [containsYieldStmt, yieldInStmt, isSome_orElse]
+      rw [C03_contains_yield_iff b, C03_contains_yield_iff o]
+    | .while_ _ b o _ => by
+      simp only [containsYieldStmt, yieldInStmt, isSome_orElse]
+      rw [C03_contains_yield_iff b, C03_contains_yield_iff o]
+    | .with_ _ _ _ b _ => by
+      simp only [containsYieldStmt, yieldInStmt]
+      exact C03_contains_yield_iff b
+    | .try_ b h o f _ => by
+      simp only [containsYieldStmt, yieldInStmt, isSome_orElse]
+      rw [C03_contains_yield_iff b, C03_contains_yield_iff h, C03_contains_yield_iff o, C03_contains_yield_iff f]
+      simp [Bool.or_assoc]
+    | .funcDef .. => by simp [containsYieldStmt, yieldInStmt]
+    | .classDef .. => by simp [containsYieldStmt, yieldInStmt]
+    | .assign .. => by simp [containsYieldStmt, yieldInStmt]
+    | .annAssign .. => by simp [containsYieldStmt, yieldInStmt]
+    | .augAssign .. => by simp [containsYieldStmt, yieldInStmt]
+    | .import_ .. => by simp [containsYieldStmt, yieldInStmt]
+    | .importFrom .. => by simp [containsYieldStmt, yieldInStmt]
+    | .return_ .. => by simp [containsYieldStmt, yieldInStmt]
+    | .assert_ .. => by simp [containsYieldStmt, yieldInStmt]
+    | .other .. => by simp [containsYieldStmt, yieldInStmt]
+  /-- **C03 (generator status: the two yield visitors agree).** `contains_yield` (which decides
+      whether `Generator[T, …]` / `Iterator[T]` is unwrapped to the yielded type) says "generator"
+      exactly when `find_yield_line` (which gives the yield line) finds a yield — for every body:
+      nested `if` / `for` / `while` / `with` / `try`, their `async` forms and `except` handlers.
+      Before the repair `contains_yield` skipped `async with`, `async for` and handler bodies, so
+      such a fixture had a yield line but its return type was not unwrapped
+      (`corpus/C03/async_with_yield.case`). -/
+  theorem C03_contains_yield_iff : (body : List Stmt) → containsYield body = (yieldLine body).isSome
+    | [] => by simp [containsYield, yieldLine]
+    | s :: ss => by
+      simp only [containsYield, yieldLine, isSome_orElse]
+      rw [C03_contains_yield_stmt_iff s, C03_contains_yield_iff ss]
+end
+
+/-- the former witness of the disagreement: a yield inside `async with` -/
+example : containsYield [.with_ true [] [] [.expr (.yield ⟨3, 8, 3, 15⟩) ⟨3, 8, 3, 15⟩] ⟨2, 4, 3, 15⟩] = true ∧
+    (yieldLine [.with_ true [] [] [.expr (.yield ⟨3, 8, 3, 15⟩) ⟨3, 8, 3, 15⟩] ⟨2, 4, 3, 15⟩]).isSome = true := by
+  simp [containsYield, containsYieldStmt, yieldLine, yieldInStmt, yieldInExpr, Option.orElse]
 
 /-- **C03 (dependencies are the named parameters WITHOUT a default value, except `self` and
     `request`, in order; the record carries the file, the `def` line and the end line).** -/
